@@ -83,6 +83,15 @@ def run_case(case):
     As.append(And(rules[2][1], rules[2][0]) if rng.random() < 0.5 else fml.rand_formula(rng, atoms, 1, 0.0))
     if rng.random() < 0.5:
         As.append(fml.rand_formula(rng, atoms, 2, 0.02))
+    # an antecedent that forces a tie (disjunction of falsifiers of rules of one layer)
+    if small:
+        tq = gen.tie_query(rng, sig, conds)
+    else:
+        layers = corpus.real_partition(impl.mk_bb(sig, conds), weakly)
+        tq = corpus.tie_query_large(rng, sig, conds, layers) if layers else None
+    if tq is not None:
+        As[-1] = tq[1]
+        bump('batches_with_tie_antecedent')
     Cs = []
     for r in rules:
         Cs.append(r[0])
